@@ -409,7 +409,10 @@ def unit_poly_scalar(eng, which, shape):
                  "-p": (lambda: eng.call(eng.getattr(p, "__neg__"), [], {}), -pv),
                  "x+n": (lambda: eng.binop(A, vs[0], n), vs[0].attrs["_sigma"] + n), "n+x": (lambda: eng.binop(A, n, vs[0]), n + vs[0].attrs["_sigma"]),
                  "x-y": (lambda: eng.binop(S, vs[0], vs[1]), vs[0].attrs["_sigma"] - vs[1].attrs["_sigma"]),
-                 "x-x": (lambda: eng.binop(S, vs[0], vs[0]), z3.IntVal(0)), "-x": (lambda: eng.call(eng.getattr(vs[0], "__neg__"), [], {}), -vs[0].attrs["_sigma"]),
+                 "x-x": (lambda: eng.binop(S, vs[0], vs[0]), z3.IntVal(0)),
+                 "x+x": (lambda: eng.binop(A, vs[0], vs[0]), 2 * vs[0].attrs["_sigma"]), "x+y": (lambda: eng.binop(A, vs[0], vs[1]), vs[0].attrs["_sigma"] + vs[1].attrs["_sigma"]),
+                 "p+x": (lambda: eng.binop(A, p, vs[0]), pv + vs[0].attrs["_sigma"]), "x+x+x": (lambda: eng.binop(A, eng.binop(A, vs[0], vs[0]), vs[0]), 3 * vs[0].attrs["_sigma"]),
+                 "x-p": (lambda: eng.binop(S, vs[0], p), vs[0].attrs["_sigma"] - pv), "-x": (lambda: eng.call(eng.getattr(vs[0], "__neg__"), [], {}), -vs[0].attrs["_sigma"]),
                  "n*x": (lambda: eng.binop(M, n, vs[0]), n * vs[0].attrs["_sigma"]), "x+p": (lambda: eng.binop(A, vs[0], p), vs[0].attrs["_sigma"] + pv),
                  "n-x": (lambda: eng.binop(S, n, vs[0]), n - vs[0].attrs["_sigma"])}
         f, want = table[which]
@@ -425,7 +428,62 @@ def unit_poly_scalar(eng, which, shape):
         if which == "x-x":
             r = o[1]
             eng.prove("a-cancelled-dependency-leaves-no-variable(base cancels in end - start)", isinstance(r, Obj) and r.attrs["coeffs"] == {})
-    return verify(eng, name, run, post, func="deferred.LinearPolynomial / BaseDeferred arithmetic")
+    r = verify(eng, name, run, post, func="deferred.LinearPolynomial / BaseDeferred arithmetic")
+    for o_ in r["obligations"]:
+        o_["cfg"] = dict(kind="poly-scalar", which=which, shape=list(shape))
+    return r
+
+
+def replay_promise_pending(tree):
+    from pyvc import driver
+    code = """
+from pdpy11.deferred import Deferred, Promise, wait
+log = []
+p = Promise[int]("LA")
+d = Deferred(int, lambda: log.append(1) or 1234)
+p.settle(d)
+w1 = p.wait()
+n1 = len(log)
+w = wait(p)
+result = dict(one_step_returns_the_pending_value=(w1 is d), inner_body_runs_during_one_step=n1, full=w, ok=(w1 is d and n1 == 0 and w == 1234 and len(log) == 1))
+"""
+    jobs = [dict(kind="py", code=code)]
+    r = driver.native(jobs, tree)[0]
+    r = r.get("result") or r
+    # and the user-visible consequence: a cancelling link expression at offset 0
+    progs = ["start: .link 2000 + end - start\n.word 1\nend: .word 2\n", "start: . = 2000 + end - start\n.word 1\nend: .word 2\n"]
+    res = driver.native([{"kind": "asm", "sources": [s_]} for s_ in progs], tree)
+    obs = [[x["status"], x.get("base"), [d_[1] for d_ in x.get("diags", [])][:1]] for x in res]
+    return dict(jobs=jobs, observed=dict(promise=r, link_programs=obs), reproduced=(isinstance(r, dict) and r.get("ok") is False) or any(x[0] != "ok" or x[1] != 0o2002 for x in obs))
+
+
+def replay_poly_scalar(cfg, tree):
+    """the same expression on the real deferred.py with concrete coefficients and values, evaluated after the variables are settled"""
+    from pyvc import driver
+    code = """
+from pdpy11.deferred import Promise, LinearPolynomial, wait
+which, shape = %r, %r
+xs = [Promise[int]("x%%d" %% i) for i in range(3)]
+sig = [7, 11, 13]
+p = LinearPolynomial[int]({xs[i]: 2 + i for i in shape}, 3)
+pv = 3 + sum((2 + i) * sig[i] for i in shape)
+n = 5
+x, y = xs[0], xs[1]
+table = {"p+n": (lambda: p + n, pv + n), "n+p": (lambda: n + p, n + pv), "p-n": (lambda: p - n, pv - n), "n-p": (lambda: n - p, n - pv), "p*n": (lambda: p * n, pv * n),
+         "n*p": (lambda: n * p, n * pv), "-p": (lambda: -p, -pv), "x+n": (lambda: x + n, sig[0] + n), "n+x": (lambda: n + x, n + sig[0]), "x-y": (lambda: x - y, sig[0] - sig[1]),
+         "x-x": (lambda: x - x, 0), "-x": (lambda: -x, -sig[0]), "n*x": (lambda: n * x, n * sig[0]), "x+p": (lambda: x + p, sig[0] + pv), "n-x": (lambda: n - x, n - sig[0]),
+         "x+x": (lambda: x + x, 2 * sig[0]), "x+y": (lambda: x + y, sig[0] + sig[1]), "p+x": (lambda: p + x, pv + sig[0]), "x+x+x": (lambda: x + x + x, 3 * sig[0]),
+         "x-p": (lambda: x - p, sig[0] - pv)}
+f, want = table[which]
+r = f()
+for v, s_ in zip(xs, sig): v.settle(s_)
+got = wait(r)
+result = dict(want=want, got=got, ok=(got == want))
+""" % (cfg["which"], list(cfg["shape"]))
+    jobs = [dict(kind="py", code=code)]
+    r = driver.native(jobs, tree)[0]
+    r = r.get("result") or r
+    return dict(jobs=jobs, observed=r, reproduced=isinstance(r, dict) and r.get("ok") is False)
 
 
 def unit_poly_wait(eng, shape, settled):
@@ -703,6 +761,75 @@ result = dict(want=want, got=got, ok=(got == want))
     return dict(jobs=jobs, observed=r, reproduced=isinstance(r, dict) and r.get("ok") is False)
 
 
+def unit_wait_chain(eng):
+    """deferred.wait over a chain of pending values of ARBITRARY length n (a definition chain: each value, once awaited, yields the next
+    pending value): the loop of wait() follows the whole chain and returns the final value - for every n, so also for the chains of depth
+    300 the property names (loop contract: 'the current value is link i of the chain, 0 <= i <= n')"""
+    from pyvc.engine import LoopSpec
+
+    def run(eng):
+        real(eng)
+        n = int_input(eng, "n")
+        eng.assume(n >= 0)
+        v = int_input(eng, "final")
+        base = dcls(eng, "BaseDeferred")
+
+        def link(i):
+            o = Obj(base, dict(typ=INT, is_awaiting=False, _idx=i), name="link")
+            o.attrs["wait"] = Builtin("link.wait", lambda e, _i=i: v if e.branch(_i + 1 >= n) else link(_i + 1))
+            return o
+        eng.I.update(n=n, v=v)
+
+        def inv(eng_, env):
+            d = env.lookup("deferred")
+            if isinstance(d, Obj) and "_idx" in d.attrs:
+                return [("the-current-value-is-a-link-of-the-chain", z3.And(d.attrs["_idx"] >= 0, d.attrs["_idx"] < n))]
+            return [("or-the-final-value", d is v)]
+
+        def havoc(eng_, env):
+            if eng_.branch(eng_.fresh_bool("still_in_the_chain")):
+                i = eng_.fresh_int("i")
+                env.assign("deferred", link(i))
+            else:
+                env.assign("deferred", v)
+        eng.loop_specs[("wait", 0)] = LoopSpec(inv, havoc)
+        start = link(z3.IntVal(0)) if eng.branch(n >= 1) else v
+        return eng.call(dcls(eng, "wait"), [start], {})
+
+    def post(eng, o):
+        eng.prove("no-exception-however-long-the-chain(no depth limit mistaken for a cycle)", o[0] == "return")
+        if o[0] == "return":
+            eng.prove("the-final-value-of-the-chain", o[1] is eng.I["v"])
+    r = verify(eng, "wait[chain of arbitrary length]", run, post, func="deferred.wait")
+    for o_ in r["obligations"]:
+        o_["cfg"] = dict(kind="wait-chain")
+    return r
+
+
+def replay_wait_chain(tree):
+    from pyvc import driver
+    code = """
+from pdpy11.deferred import Deferred, wait
+bad = []
+for n in (1, 50, 99, 100, 101, 150, 200, 299, 300, 400):
+    cur = 7
+    for k in range(n):
+        cur = Deferred(int, (lambda c=cur: c))
+    try:
+        got = wait(cur)
+    except Exception as e:
+        got = "raised " + type(e).__name__
+    if got != 7: bad.append([n, got])
+result = dict(bad=bad, ok=not bad)
+"""
+    progs = ["".join("a%d = a%d + 1\n" % (i, i + 1) for i in range(d_)) + "a%d = 5\n.word a0\n" % d_ for d_ in (150, 250, 300)]
+    jobs = [dict(kind="py", code=code)] + [{"kind": "asm", "sources": [p_]} for p_ in progs]
+    res = driver.native(jobs, tree, timeout=300)
+    r = res[0].get("result") or res[0]
+    obs = [[x["status"], x.get("code_hex")] for x in res[1:]]
+    return dict(jobs=jobs[:1], observed=dict(chains=r, definition_chains_of_depth_150_250_300=obs), reproduced=(isinstance(r, dict) and r.get("ok") is False) or any(x[0] != "ok" for x in obs))
+
+
 def unit_promise(eng):
     out = []
 
@@ -740,13 +867,37 @@ def unit_promise(eng):
             return eng.call(dcls(eng, "wait"), [p], {})
         finally:
             eng.call(eng.getattr(tc, "__exit__"), [None, None, None], {})
+    def run4(eng):
+        real(eng)
+        p, sig = poly_var(eng, "LA")
+        log = []
+        d = new_deferred(eng, INT, counter_fn(eng, sig, log))
+        eng.call(eng.getattr(p, "settle"), [d], {})
+        e1 = eng.call(eng.getattr(p, "get_current_best_estimate"), [], {})
+        w1 = eng.call(eng.getattr(p, "wait"), [], {})
+        n1 = len(log)
+        w = eng.call(dcls(eng, "wait"), [p], {})
+        eng.I.update(d=d, sig=sig, log=log)
+        return e1, w1, n1, w
+
+    def post4(eng, o):
+        eng.prove("no-exception", o[0] == "return")
+        if o[0] == "return":
+            e1, w1, n1, w = o[1]
+            eng.prove("a-promise-settled-with-a-pending-value(the link base expression)-hands-that-value-over-AS-IT-IS:one-step-of-wait-does-not-evaluate-it",
+                      e1 is eng.I["d"] and w1 is eng.I["d"] and n1 == 0)
+            eng.prove("the-full-wait-yields-the-final-value-evaluating-the-inner-body-once", w is eng.I["sig"] and len(eng.I["log"]) == 1)
+    r4 = verify(eng, "Promise[settled with a pending value]", run4, post4, func="deferred.Promise._wait")
+    for o_ in r4["obligations"]:
+        o_["cfg"] = dict(kind="promise-pending")
+    out.append(r4)
     out.append(verify(eng, "Promise[wait unsettled]", run3, lambda eng, o: eng.prove("waiting-on-an-unsettled-promise-is-not-ready(speculative)", o[0] == "raise" and o[1].cls == "NotReadyError"),
                       func="deferred.Promise._wait"))
     return out
 
 
 def all_units():
-    us = [("wait", "unit_wait", {}), ("not_ready", "unit_not_ready", {}), ("trycompute", "unit_trycompute", {}), ("awaiting", "unit_awaiting", {}),
+    us = [("wait", "unit_wait", {}), ("wait-chain", "unit_wait_chain", {}), ("not_ready", "unit_not_ready", {}), ("trycompute", "unit_trycompute", {}), ("awaiting", "unit_awaiting", {}),
           ("promise", "unit_promise", {}), ("concat[empty]", "unit_empty_add", {})]
     for mode in ("value", "not_ready", "RecoverableError", "DeferredCycle"):
         for sized in (False, True):
@@ -765,7 +916,7 @@ def all_units():
     for opn in ("add", "sub"):
         for sh in POLY_SHAPES:
             us.append(("poly[%s,%s]" % (opn, sh), "unit_poly_binop", dict(opname=opn, shape=sh)))
-    for w in ("p+n", "n+p", "p-n", "n-p", "p*n", "n*p", "-p", "x+n", "n+x", "x-y", "x-x", "-x", "n*x", "x+p", "n-x"):
+    for w in ("p+n", "n+p", "p-n", "n-p", "p*n", "n*p", "-p", "x+n", "n+x", "x-y", "x-x", "-x", "n*x", "x+p", "n-x", "x+x", "x+y", "p+x", "x+x+x", "x-p"):
         for sh in ((), (0,), (0, 1)):
             us.append(("poly[%s,%s]" % (w, sh), "unit_poly_scalar", dict(which=w, shape=sh)))
     for sh, st in (((), ()), ((0,), (0,)), ((0,), ()), ((0, 1), (0, 1)), ((0, 1), (0,)), ((0,), (1,))):
